@@ -46,6 +46,7 @@ class Transport:
         self.requests = 0
         self.stale = None         # bytes of a complete earlier reply (for the stale-reply fault)
         self.healthy = False
+        self.fixed = None         # a fault applied to every request from now on (instead of a drawn one)
 
 
 TRANSPORT = [None]
@@ -60,7 +61,7 @@ class FaultySock(rig.LoopbackSock):
             return rig.LoopbackSock.sendall(self, data)      # the handshake leg is healthy
         i = tr.requests
         tr.requests += 1
-        fault = "delivered" if (tr.healthy or i >= tr.B["FAULTY_REQUESTS"]) else S.choice("fault%d" % i, FAULTS)
+        fault = tr.fixed if tr.fixed else ("delivered" if (tr.healthy or i >= tr.B["FAULTY_REQUESTS"]) else S.choice("fault%d" % i, FAULTS))
         self.sent.append(data)
         self.requests += 1
         if fault == "reset-before-delivery":
@@ -241,7 +242,49 @@ def _reset():
 INTERPRET_MODULES = ["harness.rig"]
 STUBS = [st for st in rig.STUBS if st[1] != "create_socket"] + [(socketutil, "create_socket", faulty_create_socket, "both")]
 
+def h_retry_setting(S, B):
+    """the retry bound in force is the proxy's setting at the time of the call, through the public attribute path
+    (proxy.method(...)): earlier calls of the same method made under another setting do not count"""
+    rig.reset(S)
+    EXECUTED.clear()
+    config.COMMTIMEOUT = 2.0
+    daemon = rig.make_daemon()
+    daemon.objectsById["obj"] = Target()
+    rig.RIG.daemon = daemon
+    tr = Transport(S, {"FAULTY_REQUESTS": 0, "CUTS": None})
+    tr.healthy = True
+    TRANSPORT[0] = tr
+    p = client.Proxy("PYRO:obj@localhost:9999")
+    p._pyroMethods = {"work", "fail", "fire"}
+    p._pyroOneway = {"fire"}
+    sock = FaultySock(daemon, "cli0")
+    sock.timeout = 2.0
+    p._pyroConnection = socketutil.SocketConnection(sock, "obj")
+    before = S.choice("MAX_RETRIES_for_the_earlier_calls", [0, 1, 2])
+    now = S.choice("MAX_RETRIES_now", [0, 1])
+    p._pyroMaxRetries = before
+    n_earlier = S.choice("earlier_calls_of_the_same_method", [0, 1])
+    for i in range(n_earlier):
+        S.check("earlier-call-returns-its-own-reply", p.work("E%d" % i) == ("done", "E%d" % i))
+    p._pyroMaxRetries = now
+    # from now on every reply is lost: the request is delivered and executed, its reply never arrives (reconnecting works)
+    tr.healthy = False
+    tr.fixed = "reply-lost"
+    out = None
+    try:
+        out = ("returned", p.work("LATER"))
+    except errors.CommunicationError as x:
+        out = ("communication-error", type(x).__name__)
+    S.cover("retry-setting")
+    S.check("a-call-whose-reply-is-lost-fails", out[0] == "communication-error")
+    S.check("failed-call-ran-at-most-1-plus-the-retries-in-force", EXECUTED.get("LATER", 0) <= 1 + now)
+    S.observe("executed", EXECUTED.get("LATER", 0))
+
+
 SPECS = [
+    Spec("retry_setting", h_retry_setting, {"quick": {}, "thorough": {}},
+         covers=["retry-setting", "check:failed-call-ran-at-most-1-plus-the-retries-in-force"], native_patch=env.native_env, reset=_reset,
+         desc="proxy.work(...) through the public attribute path: 0 or 1 earlier calls under MAX_RETRIES 0/1/2, then the setting is changed to 0/1 and a call whose reply is lost (request executed) is made: it runs at most 1 + the retries now in force"),
     Spec("calls_under_faults", h_calls,
          {"quick": {"CALLS": 1, "FAULTY_REQUESTS": 2, "CUTS": [0, 5, 6, 39, 40, 47], "RETRIES": [0, 1], "KINDS": ["normal", "raising", "oneway", "batch"]},
           "thorough": {"CALLS": 2, "FAULTY_REQUESTS": 3, "CUTS": None, "RETRIES": [0, 1, 2], "KINDS": ["normal", "raising", "oneway", "batch"]}},
